@@ -24,11 +24,18 @@ def longestSplit (head trail : Re) (inp : List UInt8) (len : Nat) : Nat :=
 structure RuleInfo where
   head : Re
   trail : Option Re
+  /-- flex's RULE_VARIABLE: head and trail both of variable length -/
+  var : Bool := false
 deriving Inhabited
 
 def headLenOf (infos : Array RuleInfo) (rule len : Nat) (inp : List UInt8) : Nat :=
   match infos[rule - 1]? with
-  | some { head := h, trail := some t } => longestSplit h t inp len
+  | some { head := h, trail := some t, .. } => longestSplit h t inp len
+  | _ => len
+
+def fitLenOf (infos : Array RuleInfo) (rule len : Nat) (inp : List UInt8) : Nat :=
+  match infos[rule - 1]? with
+  | some { head := h, trail := some t, var := true } => longestSplit h t inp len
   | _ => len
 
 /-- rule numbers in an accepting label, flags stripped, head markers dropped -/
@@ -116,12 +123,14 @@ def specNeed (S : RuleSet) (interactive : Bool) (sc : Nat) (bol : Bool) (inp : L
 def tableMatcher (T : Tables) (infos : Array RuleInfo) : Matcher where
   cands := tableCands T
   headLen := headLenOf infos
+  fitLen := fitLenOf infos
   scan := tableScan T
   need := tableNeed T
 
 def specMatcher (S : RuleSet) (infos : Array RuleInfo) : Matcher where
   cands := specCands S
   headLen := headLenOf infos
+  fitLen := fitLenOf infos
   scan := specScan S
   need := specNeed S
 
